@@ -640,4 +640,154 @@ Qed.
 Lemma reach_inv l s : runF init l = Some s -> Inv period lag s.
 Proof. apply run_with_inv, inv_init. Qed.
 
+(* ---------- no early timeout ---------- *)
+Lemma kd_plain d : 0 <= d -> d + period <= max_dur -> kd period d = ticks (d + period).
+Proof. intros. unfold kd. rewrite wrap64_id; auto. lia. Qed.
+
+Lemma reached_not_early s i d t0 e :
+  Inv period lag s -> nth_error (ths s) i = Some (MRet d t0 e) ->
+  0 <= d -> d + period <= max_dur -> e <= cur (gs s) ->
+  t0 + d - early_slack lag <= now (gs s).
+Proof.
+  intros HI Hi Hd Hdp He.
+  destruct (i_thr _ _ _ HI _ _ Hi) as [_ (Hb & Hl & Hu)].
+  pose proof (i_up _ _ _ HI) as Hup. pose proof (kd_plain d Hd Hdp) as Hk. unfold early_slack.
+  destruct (Z_lt_ge_dec (kd period d) 1) as [Hk1|Hk1].
+  - rewrite Hk in Hk1. tk.
+  - specialize (Hl ltac:(lia)). unfold elow in Hl. unfold upper in Hup.
+    destruct (start (gs s)); [rewrite Hk in Hl; tk | lia].
+Qed.
+
+Lemma no_early_timeout l s i d t0 e tm :
+  runF init l = Some s -> nth_error (ths s) i = Some (MTimedOut d t0 e tm) ->
+  0 <= d -> d + period <= max_dur -> t0 + d - early_slack lag <= tm.
+Proof.
+  intros Hr Hi Hd Hdp. apply reach_inv in Hr; auto.
+  destruct (i_thr _ _ _ Hr _ _ Hi) as [_ Hp]. cbn [pinv] in Hp. apply Hp; auto.
+Qed.
+
+(* a poll made earlier than d - early_slack after the call reports "not reached";
+   the match can therefore finish without a timeout error *)
+Lemma finished_in_time l s i d t0 e :
+  runF init l = Some s -> nth_error (ths s) i = Some (MRet d t0 e) ->
+  0 <= d -> d + period <= max_dur -> now (gs s) < t0 + d - early_slack lag ->
+  cur (gs s) < e /\
+  stepF s (Step i) = Some (mkSt (gs s) (upd i (MRet d t0 e) (ths s) ++ [])) /\
+  stepF s (Finish i) = Some (mkSt (gs s) (upd i (MDone d t0 (now (gs s))) (ths s))).
+Proof.
+  intros Hr Hi Hd Hdp Hn. apply reach_inv in Hr; auto.
+  assert (Hc : cur (gs s) < e).
+  { destruct (Z_lt_ge_dec (cur (gs s)) e) as [H|H]; auto.
+    pose proof (reached_not_early s i d t0 e Hr Hi Hd Hdp ltac:(lia)). lia. }
+  split; [exact Hc|]. cbn [step]. rewrite Hi. cbn [tstep].
+  destruct (cur (gs s) >=? e) eqn:E; [lia|]. auto.
+Qed.
+
+(* ---------- timeouts fire ---------- *)
+(* while no StopTimeoutClock reset happens, the clock is kept covering the deadline of goroutine i *)
+Definition cover (s : st) (i : nat) : Prop :=
+  match nth_error (ths s) i with
+  | Some (MRead2 d t0 ce) => ce <= cend (gs s)
+  | Some (MRet d t0 e) => e <= cur (gs s) \/ e <= cend (gs s)
+  | _ => True
+  end.
+
+Lemma tstep_mono s j t G' t' sp :
+  Inv period lag s -> nth_error (ths s) j = Some t -> tstepF j (gs s) t = Some (G', t', sp) ->
+  cur (gs s) <= cur G' /\
+  (no_stop_write s (Step j) = true -> cend (gs s) <= cend G').
+Proof.
+  intros HI Hj Hst. destruct (i_thr _ _ _ HI _ _ Hj) as [_ Hp].
+  unfold no_stop_write. rewrite Hj.
+  destruct t; cbn [tstep pinv] in *; unfold lock in *; try match type of Hst with context [match mu ?g with _ => _ end] => destruct (mu g) eqn:Emu end;
+    repeat match type of Hst with
+           | context [match ?c with _ => _ end] => destruct c eqn:?
+           end; try discriminate; inversion Hst; subst; clear Hst; sg; try (split; [lia|intros; lia]).
+  - destruct Hp as (_ & _ & _ & s0 & Hs0 & Hc). rewrite Hs0. sg. split; [lia|intros;lia].
+  - destruct Hp as (_ & _ & s0 & Hs0 & Hc). rewrite Hs0. sg. split; [lia|intros;lia].
+Qed.
+
+Lemma cover_step s a s' i :
+  Inv period lag s -> cover s i -> no_stop_write s a = true -> stepF s a = Some s' -> cover s' i.
+Proof.
+  intros HI Hc Hns Hst. unfold cover in *.
+  destruct a; cbn [step] in Hst.
+  - destruct (_ && _); [|discriminate]. inversion Hst; subst; clear Hst. sg. exact Hc.
+  - inversion Hst; subst; clear Hst. sg.
+    destruct (Nat.lt_ge_cases i (length (ths s))) as [Hlt|Hge].
+    + rewrite nth_error_app1 by exact Hlt. exact Hc.
+    + rewrite nth_error_app2 by exact Hge. destruct (i - length (ths s))%nat as [|k]; cbn; auto.
+      destruct k; cbn; auto.
+  - inversion Hst; subst; clear Hst. sg.
+    destruct (Nat.lt_ge_cases i (length (ths s))) as [Hlt|Hge].
+    + rewrite nth_error_app1 by exact Hlt. exact Hc.
+    + rewrite nth_error_app2 by exact Hge. destruct (i - length (ths s))%nat as [|k]; cbn; auto.
+      destruct k; cbn; auto.
+  - destruct (nth_error (ths s) i0) as [t|] eqn:Hj; [|discriminate].
+    destruct (tstepF i0 (gs s) t) as [[[G' t'] sp]|] eqn:Ht; [|discriminate].
+    inversion Hst; subst; clear Hst. sg.
+    destruct (tstep_mono _ _ _ _ _ _ HI Hj Ht) as [Hcur Hce]. specialize (Hce Hns).
+    destruct (nth_error (upd i0 t' (ths s) ++ sp) i) as [x|] eqn:Hx; [|exact I].
+    destruct (nth_new _ _ _ _ _ _ _ Hj Hx) as [(-> & ->)|[(Hne & Hx')|(k & -> & Hk)]].
+    + (* goroutine i itself steps *)
+      rewrite Hj in Hc. destruct (i_thr _ _ _ HI _ _ Hj) as [_ Hp].
+      destruct t; cbn [tstep pinv] in *; unfold lock in *; try match type of Ht with context [match mu ?g with _ => _ end] => destruct (mu g) eqn:Emu end;
+        repeat match type of Ht with
+               | context [match ?c with _ => _ end] => destruct c eqn:?
+               end; try discriminate; inversion Ht; subst; clear Ht; sg; auto; try lia.
+      destruct Hp as (_ & _ & _ & _ & Hp). rewrite slop_val in Hp. right. lia.
+    + rewrite Hx' in Hc. destruct x; auto; lia.
+    + (* a spawned goroutine is a clock goroutine *)
+      destruct t; cbn [tstep] in Ht; unfold lock in Ht; try match type of Ht with context [match mu ?g with _ => _ end] => destruct (mu g) eqn:Emu end;
+        repeat match type of Ht with
+               | context [match ?c with _ => _ end] => destruct c eqn:?
+               end; try discriminate; inversion Ht; subst; clear Ht;
+        destruct k as [|[|k]]; try discriminate Hk. inversion Hk. exact I.
+  - destruct (nth_error (ths s) i0) as [t|] eqn:Hj; [|discriminate].
+    destruct t; try discriminate. inversion Hst; subst; clear Hst. sg.
+    destruct (Nat.eq_dec i i0) as [->|Hne].
+    + rewrite (nth_error_upd_eq _ _ _ _ Hj). exact I.
+    + rewrite nth_error_upd_neq by congruence. exact Hc.
+Qed.
+
+Lemma cover_run s l s' i :
+  Inv period lag s -> cover s i ->
+  run_with true period lag no_stop_write s l = Some s' -> cover s' i.
+Proof.
+  revert s. induction l as [|a l IH]; intros s HI Hc Hr; cbn [run_with] in Hr.
+  - inversion Hr; subst; exact Hc.
+  - destruct (no_stop_write s a) eqn:En; [|discriminate].
+    destruct (stepF s a) as [s1|] eqn:E; [|discriminate].
+    eapply IH; [| |exact Hr]; [eapply inv_step; eauto | eapply cover_step; eauto].
+Qed.
+
+Lemma fires_state s i d t0 e :
+  Inv period lag s -> cover s i -> nth_error (ths s) i = Some (MRet d t0 e) ->
+  0 <= d -> d + period <= max_dur ->
+  t0 + d + late_slack period lag <= now (gs s) -> e <= cur (gs s).
+Proof.
+  intros HI Hc Hi Hd Hdp Hn. unfold cover in Hc. rewrite Hi in Hc.
+  destruct (Z_lt_ge_dec (cur (gs s)) e) as [Hlt|Hge]; [exfalso|lia].
+  destruct Hc as [Hc|Hc]; [lia|].
+  destruct (i_thr _ _ _ HI _ _ Hi) as [_ (Hb & _ & Hu)].
+  pose proof (i_cur0 _ _ _ HI) as H0. pose proof (kd_plain d Hd Hdp) as Hk.
+  destruct Hu as [Hu|(s0 & Hs0 & Hs0' & Hu)]; [lia|]. rewrite Hk in Hu.
+  unfold late_slack in Hn.
+  destruct (live_fresh period lag Hper Hlag s (now (gs s)) HI ltac:(lia)) as [Hle|Hf]; [lia|].
+  unfold fresh in Hf. rewrite Hs0 in Hf. tk.
+Qed.
+
+Lemma timeout_fires l1 s1 l2 s2 i d t0 e :
+  runF init l1 = Some s1 -> nth_error (ths s1) i = Some (MStart d t0) ->
+  run_with true period lag no_stop_write s1 l2 = Some s2 ->
+  nth_error (ths s2) i = Some (MRet d t0 e) ->
+  0 <= d -> d + period <= max_dur ->
+  t0 + d + late_slack period lag <= now (gs s2) -> e <= cur (gs s2).
+Proof.
+  intros H1 Hi H2 Hi2 Hd Hdp Hn. apply reach_inv in H1; auto.
+  eapply fires_state; eauto.
+  - eapply run_with_inv; eauto.
+  - eapply cover_run; eauto. unfold cover. rewrite Hi. exact I.
+Qed.
+
 End Steps.
